@@ -1,11 +1,20 @@
 package main
 
-import "time"
+import (
+	"fmt"
+	"math"
+	"math/big"
+	"time"
+
+	"github.com/kstenerud/go-concise-encoding/ce/events"
+	"github.com/kstenerud/go-concise-encoding/configuration"
+	"github.com/kstenerud/go-concise-encoding/rules"
+)
 
 func init() { checks["C11"] = checkC11 }
 
 func checkC11(c *Check) {
-	c.Rule = "TLC (RulesGen.tla, alphabets AlphaArr*) enumerates, for every array type, every sequence of chunk headers (lengths 0-3, 9, 16; final or not) and data events (pieces of 1-4 byte UTF-8 characters, invalid bytes, empty, short and long data) up to the length bound, plus whole single-event arrays with right and wrong byte counts; the model validates UTF-8 with a byte-at-a-time DFA whose state is carried across data events and must be at a character boundary at every chunk end; each behaviour is replayed into rules.NewRules. non-trivial = all (each contains an array)"
+	c.Rule = "TLC (RulesGen.tla, alphabets AlphaArr*) enumerates, for every array type, every sequence of chunk headers (lengths 0-3, 9, 16; final or not) and data events (pieces of 1-4 byte UTF-8 characters, invalid bytes, empty, short and long data) up to the length bound, plus whole single-event arrays with right and wrong byte counts (also for string-like types), and element counts up to 2^64-1 for every element width (byte size evaluated with math/big: refused whenever it exceeds MaxArraySizeBytes or is not the data's); the model validates UTF-8 with a byte-at-a-time DFA whose state is carried across data events and must be at a character boundary at every chunk end; each behaviour is replayed into rules.NewRules. non-trivial = all (each contains an array)"
 	c.Assumptions = []string{"abs/concretiser of harness/abs.go", "TLC", "Utf8.tla DFA as the definition of valid UTF-8 (RFC 3629)", "bounded number of chunk/data events"}
 	reasons := []string{"array"}
 	for _, a := range []string{"AlphaArrString", "AlphaArrRref", "AlphaArrBin"} {
@@ -21,5 +30,70 @@ func checkC11(c *Check) {
 		runRulesGen(c, genCfg{Alphabet: a, MaxLen: n, Lim: defaultLim, Reasons: reasons, Prefix: pre, Filter: "FilterArrays", LateArrayReject: true, Label: "arrays/" + a, Timeout: to, Workers: 8})
 	}
 	runRulesGen(c, genCfg{Alphabet: "AlphaArrBin", MaxLen: n, Lim: defaultLim, Reasons: reasons, Prefix: pre, Filter: "FilterArrays", LateArrayReject: true, Label: "arrays/binary", Timeout: to, Workers: 8})
+	c11HugeCounts(c)
 	runRulesGen(c, genCfg{Alphabet: "AlphaArrWhole", MaxLen: 3, Lim: defaultLim, Reasons: reasons, Prefix: pre, Filter: "FilterArrays", LateArrayReject: true, Label: "arrays/whole", Timeout: to, Workers: 8})
+}
+
+// c11HugeCounts: element counts beyond TLC's integers.  The rule is the model's (bytes needed =
+// count x element width / 8, rounded up for bits; an array whose bytes exceed MaxArraySizeBytes is
+// refused at the chunk header, a whole array whose data is not that many bytes at its event),
+// evaluated with math/big.
+func c11HugeCounts(c *Check) {
+	cfg := configuration.New()
+	limit := new(big.Int).SetUint64(cfg.Rules.MaxArraySizeBytes)
+	types := []struct {
+		at   events.ArrayType
+		name string
+		bits int64
+	}{{events.ArrayTypeBit, "bit", 1}, {events.ArrayTypeUint8, "u8", 8}, {events.ArrayTypeUint16, "u16", 16}, {events.ArrayTypeInt32, "i32", 32}, {events.ArrayTypeFloat32, "f32", 32},
+		{events.ArrayTypeUint64, "u64", 64}, {events.ArrayTypeFloat64, "f64", 64}, {events.ArrayTypeUID, "uid", 128}}
+	var counts []uint64
+	for _, sh := range []uint{56, 57, 58, 59, 60, 61, 62, 63} {
+		counts = append(counts, 1<<sh, 1<<sh+1, 1<<sh-1)
+	}
+	counts = append(counts, math.MaxUint64, math.MaxUint64-7, math.MaxUint64/16+1, math.MaxUint64/64+1)
+	for _, t := range types {
+		for _, n := range counts {
+			need := new(big.Int).Mul(new(big.Int).SetUint64(n), big.NewInt(t.bits))
+			need.Add(need, big.NewInt(7)).Rsh(need, 3)
+			for _, nbytes := range []int{0, 2, 8, 16} {
+				data := make([]byte, nbytes)
+				for i := range data {
+					data[i] = byte(i + 1)
+				}
+				key := fmt.Sprint("huge", t.name, n, nbytes)
+				c.Count(key, true)
+				wit := map[string]interface{}{"kind": "huge-count", "type": t.name, "count": fmt.Sprint(n), "data_bytes": nbytes, "bytes_needed": need.String()}
+				// chunked: begin, chunk(n, final), data, end container, end document
+				r := rules.NewRules(&Recorder{}, cfg)
+				step := func(f func()) (ok bool) {
+					defer func() {
+						if recover() != nil {
+							ok = false
+						}
+					}()
+					f()
+					return true
+				}
+				step(func() { r.OnBeginDocument(); r.OnVersion(0); r.OnList() })
+				okBegin := step(func() { r.OnArrayBegin(t.at) })
+				okChunk := okBegin && step(func() { r.OnArrayChunk(n, false) })
+				wantChunk := need.Cmp(limit) <= 0
+				if okBegin && okChunk != wantChunk {
+					c.Violation(fmt.Sprintf("array of type %s: a chunk of %d elements (%s bytes; MaxArraySizeBytes %s) is %s by the validator", t.name, n, need, limit, map[bool]string{true: "accepted", false: "refused"}[okChunk]), wit)
+					continue
+				}
+				// whole: one OnArray event
+				r2 := rules.NewRules(&Recorder{}, cfg)
+				step(func() { r2.OnBeginDocument(); r2.OnVersion(0); r2.OnList() })
+				okWhole := step(func() { r2.OnArray(t.at, n, data) })
+				wantWhole := need.IsUint64() && need.Uint64() == uint64(nbytes)
+				if okWhole != wantWhole {
+					c.Violation(fmt.Sprintf("array of type %s: OnArray with %d elements (%s bytes) and %d bytes of data is %s by the validator", t.name, n, need, nbytes, map[bool]string{true: "accepted", false: "refused"}[okWhole]), wit)
+					continue
+				}
+				c.AddTraces(1)
+			}
+		}
+	}
 }
